@@ -10,6 +10,11 @@
   * `^` is start of string (no MULTILINE), `$` is end of string or just before a final "\n",
     `.` is anything but "\n" (no DOTALL); `\w \s \d` are the Unicode classes of `str` patterns,
     passed in as range lists (`Classes`, extracted by evaluating Python's `re`);
+  * IGNORECASE (`re.I`, as reported in the flags of Python's parse) is resolved by the generator, not by the engine:
+    every one-character item (literal, negated literal, class) of such a pattern is compiled on its own with sre's
+    compiler and evaluated on all code points; where the flag changes the matched set the item is emitted as a class
+    of the evaluated ranges (`u` ↦ `.cls false [.range 85 85, .range 117 117]`), otherwise in its ordinary form, so
+    `[^)]` stays `.notLit 41` and `\s*` stays `.rep 0 none true (.cls false [.space])`;
   * a repeat iteration that consumes nothing is not iterated again (sre's MAX_UNTIL/MIN_UNTIL
     guard).  The generator refuses patterns with a nullable repeat body, so this corner is never
     exercised by the extracted patterns;
